@@ -223,10 +223,12 @@ c13_vie_i64!(c13_vie_leb128_i64, quick, 12, Leb128, i64::MIN, i64::MAX);
 c13_vie_i64!(c13_vie_zigzag_i64, quick, 12, Zigzag, i64::MIN, i64::MAX);
 c13_vie_u64!(c13_vie_group_u64, quick, 12, GroupVarint, 0, u64::MAX);
 c13_vie_i64!(c13_vie_group_i64, quick, 12, GroupVarint, i64::MIN, i64::MAX);
+c13_vie_i64!(c13_vie_prefixfree_i64, quick, 12, PrefixFree, i64::MIN, i64::MAX);
+c13_vie_i64!(c13_vie_delta_i64, quick, 12, Delta, i64::MIN, i64::MAX);
 c13_vie_u64!(c13_vie_compact_u64, thorough, 12, Compact, 0, u64::MAX);
-c13_vie_i64!(c13_vie_compact_i64, thorough, 12, Compact, i64::MIN, i64::MAX);
+c13_vie_i64!(c13_vie_compact_i64, quick, 12, Compact, i64::MIN, i64::MAX);
 c13_vie_u64!(c13_vie_simd_u64, thorough, 12, Simd, 0, u64::MAX);
-c13_vie_i64!(c13_vie_simd_i64, thorough, 12, Simd, i64::MIN, i64::MAX);
+c13_vie_i64!(c13_vie_simd_i64, quick, 12, Simd, i64::MIN, i64::MAX);
 c13_vie_u64!(c13_vie_prefixfree_u64_w8, quick, 12, PrefixFree, 1u64 << 56, u64::MAX);
 c13_vie_u64!(c13_vie_prefixfree_u64_all, thorough, 12, PrefixFree, 0, u64::MAX);
 
@@ -780,3 +782,44 @@ macro_rules! c13_complex_vec {
 }
 c13_complex_vec!(c13_complex_vec_k0, thorough, 12, 0);
 c13_complex_vec!(c13_complex_vec_k2, quick, 12, 2);
+
+
+// ---------------------------------------------------------------- ComplexTypeSerializer batches
+use zipora::io::complex_types::{ComplexTypeConfig, ComplexTypeSerializer};
+
+/// serialize_batch -> deserialize_batch for K (0..=2) symbolic u32 values, with and without metadata.
+fn complex_batch<const K: usize>(with_metadata: bool) {
+    let ser = ComplexTypeSerializer::new(if with_metadata { ComplexTypeConfig::safe() } else { ComplexTypeConfig::fast() });
+    let raw: [u16; 2] = vany();
+    let vals: [Option<u16>; 2] = [if raw[0] == 0 { None } else { Some(raw[0]) }, if raw[1] == 0 { None } else { Some(raw[1]) }];
+    let bytes = must(ser.serialize_batch::<Option<u16>>(&vals[..K]), "serialize_batch refused");
+    let out = must(ser.deserialize_batch::<Option<u16>>(&bytes[..]), "deserialize_batch refused the serializer's own output");
+    assert!(out.len() == K, "batch length not preserved");
+    let mut i = 0;
+    while i < K {
+        assert!(out[i] == vals[i], "batch element does not round-trip");
+        i += 1;
+    }
+    zcover!(true, "round trip completed");
+    forget(bytes);
+    forget(out);
+}
+macro_rules! c13_complex_batch {
+    ($name:ident, $tier:ident, $unwind:literal, $k:literal, $meta:literal) => {
+        zv_harness! {
+            name: $name,
+            prop: "C13",
+            tier: $tier,
+            unwind: $unwind,
+            stubs: [alloc::fmt::format => crate::common::stubs::fmt_format],
+            targets: "io::complex_types::ComplexTypeSerializer::{serialize_batch, deserialize_batch} for Option<u16> elements",
+            bounds: "batch of K symbolic Option<u16> values (instance arg, 0..=2), metadata on (safe config) or off (fast config)",
+            oracle: "deserialize_batch(serialize_batch(v)) == v, including the empty batch",
+            body: { complex_batch::<$k>($meta) }
+        }
+    };
+}
+c13_complex_batch!(c13_complex_batch_k0_meta, quick, 24, 0, true);
+c13_complex_batch!(c13_complex_batch_k1_meta, quick, 24, 1, true);
+c13_complex_batch!(c13_complex_batch_k0_fast, quick, 24, 0, false);
+c13_complex_batch!(c13_complex_batch_k2_fast, thorough, 24, 2, false);
